@@ -358,7 +358,8 @@ class GuardLib:
         PI = lift(math.pi).v
         r = _fresh("atan2")
         c = ctx()
-        c.facts += [r >= -PI, r <= PI, z3.Implies(y.v >= 0, r >= 0), z3.Implies(y.v <= 0, r <= 0)]
+        # (strict: atan2(-0.0, x < 0) is -pi although -0.0 denotes the number 0)
+        c.facts += [r >= -PI, r <= PI, z3.Implies(y.v > 0, r >= 0), z3.Implies(y.v < 0, r <= 0)]
         return GV(r, z3.Or(y.nan, x.nan))
 
     def absolute(self, x):
